@@ -145,8 +145,23 @@ func genC06(t *rapid.T) C06Case {
 	cfg.RequireOrder = 0
 	cfg.SetCalled = true
 	cfg.Valid = true
+	cfg.Env = true
 	cfg.UnkModes = []int{0, 1, 2}
 	spec := GenProg(t, cfg)
+	spec.Env = map[string]string{}
+	spec.Walk(func(path string, cs *CmdSpec, _ []*CmdSpec) {
+		for i := range cs.Opts {
+			o := &cs.Opts[i]
+			if o.Env == "" || rapid.IntRange(0, 2).Draw(t, "envset") > 0 {
+				continue
+			}
+			if o.Kind == KBool {
+				spec.Env[o.Env] = rapid.SampledFrom([]string{"true", "false", "TRUE", "False"}).Draw(t, "envb")
+			} else {
+				spec.Env[o.Env] = goodValue(t, o, "envv")
+			}
+		}
+	})
 	c := C06Case{Spec: spec}
 	lv := spec.Levels()
 	n := rapid.IntRange(0, 7).Draw(t, "nitems")
@@ -274,6 +289,14 @@ func checkC06(c C06Case, st *evid.Stats) error {
 				continue
 			}
 			if envSet {
+				// supplied through its environment variable only: called, and CalledAs is the variable's name
+				st.Class("env-supplied-untouched")
+				if !got.Called {
+					return failf("option %q supplied through %s=%q: Called(%q) at %s is false", o.Name, o.Env, c.Spec.Env[o.Env], k, l.Path)
+				}
+				if got.As != o.Env {
+					return failf("option %q supplied through its environment variable: CalledAs(%q) at %s = %q, want the variable's name %q", o.Name, k, l.Path, got.As, o.Env)
+				}
 				continue
 			}
 			untouchedKinds[o.Kind] = true
